@@ -56,6 +56,10 @@ class World:
                 for n in roots:
                     if n in self.t: ev.append(("bwfrom", n, src))
         ev += [("zero", "p"), ("zero", "q"), ("zero", "module"), ("zero", "optimizer")]
+        # a leaf that is frozen for a while (requires_grad switched off and on again, as in staged fine-tuning): freezing by itself
+        # is not a reset and keeps the gradient; a tensor-level reset issued while frozen is a reset like any other
+        ev += [("zero_frozen", "p"), ("refreeze", "q")]
+        if THOROUGH_EVENTS: ev += [("zero_frozen", "q"), ("refreeze", "p")]
         if all(a is None or np.all(np.isfinite(a)) for a in self.acc.values()):
             ev.append(("step",))      # an optimizer step reads gradients; it is not a reset and contributes nothing
         return ev
@@ -130,6 +134,13 @@ class World:
             else:
                 (self.mod if w == "module" else self.opt).zero_grad()
                 touched |= {"p", "q"}; self.acc["p"] = np.zeros(2); self.acc["q"] = np.zeros(2)
+        elif e[0] in ("zero_frozen", "refreeze"):
+            leaf = self.t[e[1]]
+            leaf.requires_grad = False
+            if e[0] == "zero_frozen":
+                leaf.zero_(); touched.add(e[1]); self.acc[e[1]] = np.zeros(2)
+            leaf.requires_grad = True
+            if not leaf.requires_grad: raise harness.HarnessError("requires_grad = True refused on a float leaf")
         elif e[0] == "step":
             self.opt.step()
             for leaf, val in (("p", PV), ("q", QV)):
@@ -171,6 +182,8 @@ class World:
                         alias.append((n, k - len(self.gs[-3:]), bool(np.shares_memory(g.data, cg.data))))
             return (nodes, led, self._grad_bytes("p"), self._grad_bytes("q"), tuple(a for a in alias if a[2]))
 
+THOROUGH_EVENTS = False
+
 def make_world():
     return World()
 
@@ -181,6 +194,8 @@ def replay(case):
     return out
 
 def run(tier, seed):
+    global THOROUGH_EVENTS
+    THOROUGH_EVENTS = tier == "thorough"
     depth = 6 if tier == "quick" else 7
     res = explorer.explore(make_world, depth)
     cov = {"states": res.states, "transitions": res.transitions, "traces_validated_against_impl": res.transitions,
@@ -188,7 +203,7 @@ def run(tier, seed):
            "pruned_violating_transitions": res.pruned,
            "rule": f"all histories up to depth {depth} over: build y1=p*q, h=p*c, y3=h*h, z=y1*c, z2=y1+y3, w=q*q, s=y1.sum() (one-element root, 0-d seeds) on shared Parameters "
                    "p,q of one Module/optimizer; backward(root, g) for every existing node AND leaf as root, g in {(1,1),(0.5,-2)}, "
-                   "plain or under retain_grads; backward(node, g = the .grad currently held by a retained interior node below it); retain_grad(node); p.zero_(), q.zero_(), module.zero_grad(), optimizer.zero_grad(); optimizer.step() of an SGD(lr=0, "
+                   "plain or under retain_grads; backward(node, g = the .grad currently held by a retained interior node below it); retain_grad(node); p.zero_(), q.zero_(), module.zero_grad(), optimizer.zero_grad(); freeze-then-unfreeze of a leaf with or without a zero_() in between (quick: zero_ on p, plain on q; thorough: both on both); optimizer.step() of an SGD(lr=0, "
                    "weight decay, maximize) - reads gradients, must leave them alone. "
                    "After every event: .grad of p and q == ledger (sum of forward-mode contributions since last reset), unreachable "
                    "leaves byte-identical, every caller-owned g byte-identical"}
